@@ -304,11 +304,36 @@ fn check(case: &Case, obs: &mut Obs) -> PropResult {
 			Err(_) => obs.label("class_not_encodable"),
 		}
 	}
+	check_files(files, &case.plan, &case.trailing, obs)
+}
+
+#[derive(Clone, Debug, Serialize, Deserialize)]
+pub struct CorpusCase {
+	pub picks: Vec<u16>,
+	pub plan: Plan,
+	pub trailing: Vec<u8>,
+}
+
+fn corpus_files() -> &'static Vec<(String, Vec<u8>)> {
+	static C: std::sync::OnceLock<Vec<(String, Vec<u8>)>> = std::sync::OnceLock::new();
+	C.get_or_init(crate::corpus::load)
+}
+
+fn corpus_check(case: &CorpusCase, obs: &mut Obs) -> PropResult {
+	let all = corpus_files();
+	if all.is_empty() {
+		return Ok(());
+	}
+	let files: Vec<Vec<u8>> = case.picks.iter().map(|p| all[crate::engine::idx(*p, all.len())].1.clone()).collect();
+	check_files(files, &case.plan, &case.trailing, obs)
+}
+
+pub fn check_files(files: Vec<Vec<u8>>, plan_in: &Plan, trailing: &[u8], obs: &mut Obs) -> PropResult {
 	if files.is_empty() {
 		return Ok(());
 	}
 	let mut stream: Vec<u8> = files.concat();
-	stream.extend_from_slice(&case.trailing);
+	stream.extend_from_slice(trailing);
 	let ends: Vec<u64> = files.iter().scan(0u64, |acc, f| { *acc += f.len() as u64; Some(*acc) }).collect();
 
 	// full reads, one per call
@@ -336,7 +361,7 @@ fn check(case: &Case, obs: &mut Obs) -> PropResult {
 	}
 
 	// masked reads on one cursor
-	let plan = &case.plan;
+	let plan = plan_in;
 	let mut cur = Cursor::new(&stream);
 	let mut mv = MaskedMulti::new(plan.to_duke());
 	for (k, end) in ends.iter().enumerate() {
@@ -431,7 +456,7 @@ fn check(case: &Case, obs: &mut Obs) -> PropResult {
 	}
 
 	obs.label(format!("classes_in_stream={}", files.len()));
-	obs.label_if(!case.trailing.is_empty(), "trailing_bytes");
+	obs.label_if(!trailing.is_empty(), "trailing_bytes");
 	obs.label_if(plan.is_all(), "mask:all");
 	obs.label_if(plan.is_none(), "mask:none");
 	obs.label_if(!plan.decline_classes.is_empty() && kept.len() < files.len(), "class_declined");
@@ -454,4 +479,10 @@ pub fn run(ctx: &mut Ctx) {
 	ctx.assume("whether the reader honours ClassInterests.fields / methods is not asserted (the property speaks about the items received)");
 	ctx.assume("expectations derive from duke's own full read, so defects of the full read (C01) do not count here");
 	ctx.run_sub("masked_and_replayed", ctx.tier.pick(24000, 1200000), strategy, check);
+	ctx.run_sub(
+		"corpus_javac",
+		ctx.tier.pick(3000, 100_000),
+		|| (proptest::collection::vec(any::<u16>(), 1..4), plan_strategy(), proptest::collection::vec(any::<u8>(), 0..6)).prop_map(|(picks, plan, trailing)| CorpusCase { picks, plan, trailing }),
+		corpus_check,
+	);
 }
